@@ -252,7 +252,7 @@ def correspondence(chk, n_sessions):
 # ------------------------------------------------------------------ property oracle on the real REPL
 
 INPUT_KINDS = ["value", "value", "value", "multiline", "none", "two-forms", "runtime-error", "name-error",
-               "compile-error", "lex-error", "string-newline"]
+               "compile-error", "lex-error", "string-newline", "use-reader", "use-reader", "broken-repr"]
 
 
 def gen_input(rng, st):
@@ -260,6 +260,21 @@ def gen_input(rng, st):
     st["n"] += 1
     v = 1000 + st["n"]          # every result is a different integer
     k = rng.choice(INPUT_KINDS)
+    if k == "use-reader":
+        # a reader macro defined earlier in the session must keep working after multi-line and failing inputs
+        if not st.get("reader"):
+            st["reader"] = "plus%d" % st["n"]
+            return dict(lines=["(defreader %s (setv n (.parse-one-form &reader)) `(+ ~n 5))" % st["reader"]],
+                        kind="defreader", expect=("none",))
+        form = rng.choice(["#%s %d", "(+ 0\n   #%s %d)"])
+        return dict(lines=(form % (st["reader"], v - 5)).split("\n"), kind=k, expect=("value", v))
+    if k == "broken-repr":
+        # an input that evaluates fine to an object whose hy.repr raises
+        if not st.get("cls"):
+            st["cls"] = "BrokenRepr%d" % st["n"]
+            return dict(lines=["(defclass %s []" % st["cls"], '  (defn __repr__ [self] (raise (ValueError "broken repr"))))'],
+                        kind="defclass", expect=("none",))
+        return dict(lines=["(%s)" % st["cls"]], kind=k, expect=("unprintable", st["cls"], "ValueError"))
     if k == "value":
         a = rng.randint(1, v - 1)
         return dict(lines=["(+ %d %d)" % (a, v - a)], kind=k, expect=("value", v))
@@ -307,6 +322,11 @@ def corpus_sessions():
             inputs.append(dict(lines=lines, kind=kind, expect=exp))
         out.append(inputs)
     return out
+
+
+def show(xs):
+    """values of a session as text; objects whose repr may raise are shown by class"""
+    return repr([x if isinstance(x, (int, str, type(None))) else "<%s>" % type(x).__name__ for x in xs])
 
 
 def oracle(chk, n_sessions):
@@ -372,20 +392,31 @@ def oracle(chk, n_sessions):
                        % (vlib.REPO, [l for h in history for l in h.split("\n")] + inp["lines"]))
                 slots = [L[M["*1"]], L[M["*2"]], L[M["*3"]]]
                 if exp[0] == "error" and slots != before_slots:
-                    chk.fail("failed-input-changed-the-slots", dict(desc, failed_input_kind=kind), repr(slots),
-                             repr(before_slots), how)
+                    chk.fail("failed-input-changed-the-slots", dict(desc, failed_input_kind=kind), show(slots),
+                             show(before_slots), how)
                 if exp[0] == "value":
                     results.insert(0, exp[1])
                     if printed != hy.repr(exp[1]) + "\n":
                         chk.fail("printed-result", desc, printed, hy.repr(exp[1]) + "\n", how)
                     if slots[0] != exp[1]:
-                        chk.fail("star1-is-not-the-result", desc, repr(slots), exp[1], how)
+                        chk.fail("star1-is-not-the-result", desc, show(slots), exp[1], how)
+                elif exp[0] == "unprintable":
+                    # evaluated fine (so it is a result and enters *1), but printing it failed (so *e is set)
+                    e = L.get(M["*e"])
+                    if printed != "":
+                        chk.fail("printed-something-for-unprintable-value", desc, printed, "", how)
+                    if type(slots[0]).__name__ != exp[1]:
+                        chk.fail("star1-is-not-the-result", dict(desc, note="the value evaluated fine; only its repr raises"),
+                                 [type(x).__name__ for x in slots], exp[1], how)
+                    if e is None or type(e).__name__ != exp[2]:
+                        chk.fail("star-e-is-not-the-latest-exception", desc, type(e).__name__, exp[2], how)
+                    results.insert(0, slots[0] if type(slots[0]).__name__ == exp[1] else object())
                 elif exp[0] == "none":
                     results.insert(0, None)
                     if printed != "":
                         chk.fail("printed-something-for-None", desc, printed, "", how)
                     if slots[0] is not None:
-                        chk.fail("star1-is-not-the-result", desc, repr(slots), None, how)
+                        chk.fail("star1-is-not-the-result", desc, show(slots), None, how)
                 else:
                     e = L.get(M["*e"])
                     if printed != "":
@@ -401,21 +432,22 @@ def oracle(chk, n_sessions):
                     nn = [x for x in slots if x is not None]
                     if len(set(nn)) != len(nn):
                         rep = [x for x in nn if nn.count(x) > 1][0]
-                        d2 = dict(desc, failed_input_kind=kind, slots=slots,
+                        d2 = dict(desc, failed_input_kind=kind, slots=show(slots),
                                   repeated_is_previous_last_value=(len(results) > 0 and results[0] == rep))
-                        chk.fail("slot-repeats-one-result-after-failed-input", d2, repr(slots),
+                        chk.fail("slot-repeats-one-result-after-failed-input", d2, show(slots),
                                  "no result in two slots", how)
                 # in any case the slots must hold results of evaluated inputs, latest first (ignoring repeats)
                 seen = [x for k, x in enumerate(slots) if x is not None and x not in slots[:k]]
                 evald = [x for x in results if x is not None]
                 it = iter(evald)
                 if not all(any(y == x for y in it) for x in seen):
-                    chk.fail("slots-are-not-recent-results-in-order", desc, repr(slots), repr(results[:4]), how)
+                    chk.fail("slots-are-not-recent-results-in-order", desc, show(slots), show(results[:4]), how)
                 history.append("\n".join(inp["lines"]))
                 chk.count("input:" + kind)
                 chk.count("lines:%d" % len(inp["lines"]))
                 chk.case((tuple(history[-3:]),), nontrivial=(exp[0] == "error" or len(inp["lines"]) > 1 or len(history) > 1),
-                         sample={"session": history[-3:], "slots": slots} if (s * 13 + len(history)) % 211 == 5 else None)
+                         sample={"session": history[-3:], "slots": [x if isinstance(x, (int, type(None))) else type(x).__name__ for x in slots]}
+                         if (s * 13 + len(history)) % 211 == 5 else None)
     finally:
         sys.excepthook = saved
 
